@@ -201,7 +201,7 @@ def audit_assumptions(pid, prop_file, workdir):
 def run_shard(args):
     workdir, name = args
     t0 = time.time()
-    rc, out = sh(["bash", "-c", "ulimit -s unlimited 2>/dev/null || ulimit -s 1000000; exec coqc -Q %s V %s" % (COQ, name)],
+    rc, out = sh(["bash", "-c", "ulimit -s unlimited 2>/dev/null || ulimit -s 1000000; exec coqc -noglob -Q %s V %s" % (COQ, name)],
                  cwd=workdir, timeout=1500)
     if rc != 0:
         return name, None, out, time.time() - t0
